@@ -29,7 +29,7 @@ ASSUMPTIONS = [
     "in place + stop signal: only the weaker reading is asserted (accepted-so-far nodes and their ancestors stay, nothing foreign appears, tree stays well-formed)",
     "Node.filtered()/Node.copy(add_self=True) always contain the start node itself",
 ]
-EXHAUSTIVE_NOTE = {"quick": "forests <= 4 nodes x 7^n verdicts x 2 forms x {tree, first branch}", "thorough": "forests <= 5 nodes x 7^n verdicts x 2 forms x {tree, first branch}"}
+EXHAUSTIVE_NOTE = {"quick": "forests <= 4 nodes x 7^n verdicts x 2 forms x {tree, first branch}", "thorough": "forests <= 5 nodes x 7^n verdicts x 2 forms x {tree, first branch}; forests with 6 nodes x 7^6 verdicts (returned form, tree level)"}
 
 VERDICTS = ["T", "F", "N", "S", "S0", "B", "X"]
 
@@ -310,6 +310,11 @@ def enum_cases(tier):
                 yield {"spec": spec, "verdicts": list(assign), "forms": form, "start": -1}
             if spec[0][1]:
                 yield {"spec": spec, "verdicts": list(assign), "forms": 0, "start": 0}
+    if tier == "thorough":
+        # 6 nodes: all 7^6 assignments on every forest, returned form, tree level
+        for spec in enumer.forests_upto(6, 6):
+            for assign in itertools.product(VERDICTS, repeat=6):
+                yield {"spec": spec, "verdicts": list(assign), "forms": 0, "start": -1}
 
 
 @st.composite
@@ -325,5 +330,5 @@ def hyp_cases(draw, tier):
 
 PARTS = [
     Part("verdicts", run, enum=enum_cases),
-    Part("random-verdicts", run, strategy=lambda tier: hyp_cases(tier), n={"quick": 400, "thorough": 40000}),
+    Part("random-verdicts", run, strategy=lambda tier: hyp_cases(tier), n={"quick": 1000, "thorough": 150000}),
 ]
